@@ -77,6 +77,16 @@ CHECKS["C16"] = dict(
    note=TB + "Partial: that each of the ~150 error exits of the library sets a message and that no stale message survives a successful call is observed "
         "by the monitors on the exercised calls (good and truncated dumps, failing reads/attribute calls), not proved.",
    technique="Lean 4 proof (buffer invariant over all histories) + differential correspondence + API monitors", design="§6 C16")
+CHECKS["C11"] = dict(
+   text="Lean proofs over a model of flatmap.c (record scan, pread and chunk retrieval from a flattened stream; the range map is the proved C10 model): "
+        "reads of a flattened file equal the rearranged file for any record sizes, order, overlaps, holes or an empty stream (later records win, unwritten "
+        "positions read as zero), the scan accepts every well-formed stream and terminates; split sets: the file found for a frame is the one whose window "
+        "contains it, in any order of passing the files. Tie: the real flatmap.c on explicit record streams vs model and an independent oracle; the page "
+        "descriptor file/position of every frame of split sets observed through ld --wrap; plain twins compared with flattened variants and split sets "
+        "through the public API (attribute tree, both page maps, page and cross-page reads).",
+   note=TB + "SADUMP disk sets are not covered (no writer); allocation failure and I/O errors of the packaging layer are not exercised; the library is built "
+        "without UBSan's alignment check for this property (header structs are read at arbitrary alignment inside flattened files).",
+   technique="Lean 4 proof (flattened read = rearranged file; split order irrelevance) + differential correspondence", design="§6 C11")
 NOT_YET = {}
 
 def main():
